@@ -80,6 +80,9 @@ pub struct HuffmanBlobStore<S: BlobStore> {
     training_data: Vec<u8>,
     encoder: Option<HuffmanEncoder>,
     tree: Option<HuffmanTree>,
+    /// Original length of every record that was stored Huffman-encoded
+    /// (the metadata needed to decode it; all other records are stored as-is)
+    encoded_lengths: std::collections::HashMap<crate::RecordId, usize>,
 }
 
 impl<S: BlobStore> HuffmanBlobStore<S> {
@@ -91,6 +94,7 @@ impl<S: BlobStore> HuffmanBlobStore<S> {
             training_data: Vec::new(),
             encoder: None,
             tree: None,
+            encoded_lengths: std::collections::HashMap::new(),
         }
     }
 
@@ -162,8 +166,13 @@ impl<S: BlobStore> HuffmanBlobStore<S> {
 
 impl<S: BlobStore> BlobStore for HuffmanBlobStore<S> {
     fn get(&self, id: crate::RecordId) -> Result<Vec<u8>> {
-        // For now, delegate to inner store (would need metadata for decompression)
-        self.inner.get(id)
+        let stored = self.inner.get(id)?;
+        match (self.encoded_lengths.get(&id), self.tree.as_ref()) {
+            (Some(&original_length), Some(tree)) => {
+                HuffmanDecoder::new(tree.clone()).decode(&stored, original_length)
+            }
+            _ => Ok(stored),
+        }
     }
 
     fn put(&mut self, data: &[u8]) -> Result<crate::RecordId> {
@@ -171,6 +180,7 @@ impl<S: BlobStore> BlobStore for HuffmanBlobStore<S> {
             match self.compress_data(data) {
                 Ok(compressed) => {
                     let id = self.inner.put(&compressed)?;
+                    self.encoded_lengths.insert(id, data.len());
                     self.stats.blob_stats.put_count += 1;
                     Ok(id)
                 }
@@ -185,7 +195,9 @@ impl<S: BlobStore> BlobStore for HuffmanBlobStore<S> {
     }
 
     fn remove(&mut self, id: crate::RecordId) -> Result<()> {
-        self.inner.remove(id)
+        self.inner.remove(id)?;
+        self.encoded_lengths.remove(&id);
+        Ok(())
     }
 
     fn contains(&self, id: crate::RecordId) -> bool {
@@ -193,7 +205,10 @@ impl<S: BlobStore> BlobStore for HuffmanBlobStore<S> {
     }
 
     fn size(&self, id: crate::RecordId) -> Result<Option<usize>> {
-        self.inner.size(id)
+        match self.encoded_lengths.get(&id) {
+            Some(&original_length) if self.inner.contains(id) => Ok(Some(original_length)),
+            _ => self.inner.size(id),
+        }
     }
 
     fn len(&self) -> usize {
